@@ -98,3 +98,74 @@ def drive_model(ctx, rng, steps=14, max_assets=5):
         except Exception:
             raise
     return m
+
+
+def drive_graph(ctx, rng, steps=14):
+    """One random history on a freshly generated attack graph of a small random model (tracers record)."""
+    from maltoolbox.attackgraph import AttackGraph, AttackGraphNode, Attacker
+    from maltoolbox.attackgraph.analyzers import apriori
+    import copy
+    L = ctx.L
+    m = ctx.new_model('gdrv')
+    types = [a['name'] for a in L['assets']]
+    assets = []
+    for i in range(rng.choice([1, 2, 3])):
+        o = getattr(ctx.ns, rng.choice(types))(name='a%d' % i)
+        m.add_asset(o)
+        assets.append(o)
+    for _ in range(rng.choice([0, 1, 2, 3])):
+        ci = rng.randrange(len(L['assocs'])) + 1
+        decl = L['assocs'][ci - 1]
+        a = ctx.assoc_class(ci)()
+        try:
+            setattr(a, decl['lf'], [rng.choice(assets)])
+            setattr(a, decl['rf'], [rng.choice(assets)])
+            m.add_association(a)
+        except Exception:
+            pass
+    g = AttackGraph(ctx.lang_graph, m)
+    atks = []
+    extra = []
+    for _ in range(steps):
+        op = rng.choice(['addatk', 'rmatk', 'comp', 'comp', 'comp', 'undo', 'undo', 'rmnode', 'addnode', 'analyse', 'prune', 'label', 'copy'])
+        try:
+            if op == 'addatk' and len(atks) < 3:
+                a = Attacker(name='t%d' % len(atks))
+                i = rng.choice([None, None, 0, 5])
+                if i is not None and g.get_attacker_by_id(i) is not None:
+                    i = None
+                g.add_attacker(a, attacker_id=i) if i is not None else g.add_attacker(a)
+                atks.append(a)
+            elif op == 'rmatk' and atks:
+                a = rng.choice(atks)
+                g.remove_attacker(a)
+                atks.remove(a)
+            elif op == 'comp' and atks and g.nodes:
+                a, n = rng.choice(atks), rng.choice(g.nodes)
+                a.compromise(n) if rng.random() < 0.5 else n.compromise(a)
+            elif op == 'undo' and atks and g.nodes:
+                a, n = rng.choice(atks), rng.choice(g.nodes)
+                a.undo_compromise(n) if rng.random() < 0.5 else n.undo_compromise(a)
+            elif op == 'rmnode' and g.nodes:
+                g.remove_node(rng.choice(g.nodes))
+            elif op == 'addnode' and len(extra) < 2:
+                n = AttackGraphNode(type=rng.choice(['or', 'and']), name='x')
+                g.add_node(n)
+                extra.append(n)
+                if g.nodes:
+                    p = rng.choice(g.nodes)
+                    p.children.append(n)
+                    n.parents.append(p)
+            elif op == 'analyse' and all(n.is_viable and n.is_necessary for n in g.nodes):
+                apriori.calculate_viability_and_necessity(g)
+            elif op == 'prune':
+                apriori.prune_unviable_and_unnecessary_nodes(g)
+            elif op == 'label' and g.nodes:
+                rng.choice(g.nodes).is_viable = False
+            elif op == 'copy':
+                g2 = copy.deepcopy(g)
+                if g2.nodes and rng.random() < 0.7:
+                    g2.remove_node(rng.choice(g2.nodes))
+        except Exception:
+            raise
+    return g
